@@ -288,6 +288,12 @@ class Enc:
         stubs=["_encode_body_section -> recorder", "document / components -> namespaces with model_copy", "encoding service -> tokens"],
         bounds="1..3 sections, nested or flat header list, footnote present or not",
         what="each section's frame is encoded with its own body attributes, exactly once, and the sections appear in list order"))
+    # O10: a cell rendered with conversion off is verbatim whatever was converted earlier in the process (shared with C11-O5)
+    from .C11 import build as c11_build
+    for ob in c11_build(tier, seed)[0]:
+        if ob.oid == "O5.toggle_history":
+            ob.oid = "O10.convert_off_history"
+            obs.append(ob)
     meta = {
         "explanation": "Row conservation is decomposed into the pure-Python kernels named in the property's anchors, each executed "
                        "symbolically by CrossHair on the real code: page assignment (unbounded heights), re-slicing by cumulative "
